@@ -316,7 +316,8 @@ Lemma validate_passage_name_ood : forall name idx, ok_or_diag (validate_passage_
 Proof.
   intros. unfold validate_passage_name.
   destruct name as [|c r]; simpl; auto with ood.
-  repeat ood_step; simpl; auto with ood.
+  repeat ood_step; simpl; auto with ood;
+    (destruct (str_contains (String c r) " "); [|destruct (str_contains (String c r) "-")]; simpl; auto with ood).
 Qed.
 
 Lemma parse_render_line_ood : forall ctx s, ok_or_diag (parse_render_line ctx s).
@@ -353,3 +354,270 @@ Proof.
   destruct (negb _); simpl; [lia|].
   destruct (eme_loop _ _ _ _). simpl. lia.
 Qed.
+
+(* ------------------------------------------------------------------------------------------- *)
+(* the main loop                                                                                *)
+(* ------------------------------------------------------------------------------------------- *)
+
+(* an internal error / an exhausted fuel that an extractor returned *)
+Definition xs_internal (xs : extractors) (k : internal) : Prop :=
+  (exists ls i, x_python xs ls i = PInternal k) \/
+  (exists ls i, x_conditional xs ls i = PInternal k) \/
+  (exists ls i, x_loop xs ls i = PInternal k) \/
+  (exists ls i n, x_join xs ls i n = PInternal k).
+
+Definition xs_fuel (xs : extractors) : Prop :=
+  (exists ls i, x_python xs ls i = POutOfFuel) \/
+  (exists ls i, x_conditional xs ls i = POutOfFuel) \/
+  (exists ls i, x_loop xs ls i = POutOfFuel) \/
+  (exists ls i n, x_join xs ls i n = POutOfFuel).
+
+(* value, diagnostic, or exactly what an extractor returned *)
+Definition safe (xs : extractors) {A} (m : pres A) : Prop :=
+  match m with
+  | POk _ | PDiag _ => True
+  | PInternal k => xs_internal xs k
+  | POutOfFuel => xs_fuel xs
+  end.
+
+Section MainLoop.
+Variable pp : pyparse.
+Variable is_call : string -> bool.
+Variable xs : extractors.
+Hypothesis xs_ok : extractors_ok xs.
+
+Lemma safe_ood : forall A (m : pres A), ok_or_diag m -> safe xs m.
+Proof. intros A m [[a H]|[d H]]; subst; simpl; auto. Qed.
+
+Lemma safe_bind : forall A B (m : pres A) (f : A -> pres B),
+  safe xs m -> (forall a, m = POk a -> safe xs (f a)) -> safe xs (pbind m f).
+Proof. intros A B [a|d|k|] f Hm Hf; simpl in *; auto. Qed.
+
+(* the iteration is safe and, when it succeeds, moves the index forward *)
+Definition adv (i : nat) (m : pres (pstate * nat)) : Prop :=
+  safe xs m /\ forall st' i', m = POk (st', i') -> i < i'.
+
+Lemma adv_ok : forall i st i', i < i' -> adv i (POk (st, i')).
+Proof. intros. split; simpl; auto. intros ? ? H0. inversion H0; subst; auto. Qed.
+
+Lemma adv_diag : forall i d, adv i (PDiag d).
+Proof. intros. split; simpl; auto. discriminate. Qed.
+
+Lemma adv_dsyn : forall i s j, adv i (dsyn s j).
+Proof. intros. apply adv_diag. Qed.
+
+Lemma adv_bind : forall A i (m : pres A) f,
+  safe xs m -> (forall a, m = POk a -> adv i (f a)) -> adv i (pbind m f).
+Proof.
+  intros A i [a|d|k|] f Hm Hf; simpl in *; try (split; simpl; auto; discriminate).
+  apply Hf; auto.
+Qed.
+
+#[local] Hint Resolve adv_ok adv_diag adv_dsyn : adv.
+
+Ltac adv_if :=
+  match goal with
+  | |- adv _ (if ?b then _ else _) => destruct b eqn:?
+  end.
+
+Lemma body_step_adv : forall lines i line st cp, adv i (body_step pp xs lines i line st cp).
+Proof.
+  intros. destruct xs_ok as [Hpy [Hcond Hloop]]. unfold body_step.
+  adv_if; [apply adv_ok; lia|].
+  adv_if.
+  { apply adv_bind.
+    - destruct (x_python xs lines i) eqn:E; simpl; auto; [left|left]; eauto.
+    - intros [code n] E. apply adv_ok. apply Hpy in E. lia. }
+  adv_if.
+  { apply adv_bind.
+    - destruct (x_conditional xs lines i) eqn:E; simpl; auto; [right; left|right; left]; eauto.
+    - intros [t n] E. apply adv_ok. apply Hcond in E. lia. }
+  adv_if.
+  { apply adv_bind.
+    - destruct (x_loop xs lines i) eqn:E; simpl; auto; [right; right; left|right; right; left]; eauto.
+    - intros [t n] E. apply adv_ok. apply Hloop in E. lia. }
+  adv_if.
+  { apply adv_bind; [apply safe_ood, ood_retag, parse_render_line_ood|].
+    intros [t|] _; apply adv_ok; lia. }
+  adv_if.
+  { apply adv_bind; [apply safe_ood, ood_retag, parse_input_attrs_ood|].
+    intros [t|] _; apply adv_ok; lia. }
+  adv_if.
+  { destruct (split_ws (strip line)) as [|a [|b [|c [|? ?]]]]; auto with adv; try (apply adv_ok; lia). }
+  adv_if.
+  { destruct (split_ws (strip line)) as [|a [|b [|c [|? ?]]]]; auto with adv; try (apply adv_ok; lia). }
+  adv_if; [apply adv_ok; lia|].
+  adv_if.
+  { destruct (arrow_rest _); [destruct (extract_target_and_args _)|]; apply adv_ok; lia. }
+  adv_if.
+  { destruct (strip_inline_comment _) as [code cm].
+    pose proof (extract_multiline_consumes lines i code) as Hc.
+    destruct (extract_multiline_expression lines i code) as [cc n]. simpl in Hc.
+    destruct (py_stmt_ok pp cc); auto with adv. apply adv_ok; lia. }
+  adv_if.
+  { apply adv_bind; [apply safe_ood, validate_choice_syntax_ood|]. intros _ _.
+    apply adv_bind; [apply safe_ood, ood_retag, parse_choice_line_ood|].
+    intros [[text target args cond sticky sec tags blk]|] _; auto with adv.
+    destruct (String.eqb target "@join").
+    - apply adv_bind.
+      + destruct (x_join xs lines (S i) (indent_of line)) eqn:E; simpl; auto;
+          [right; right; right|right; right; right]; eauto.
+      + intros [[bc be] n] _. apply adv_ok; lia.
+    - apply adv_ok; lia. }
+  adv_if.
+  { adv_if.
+    - apply adv_bind; [apply safe_ood, ood_retag, parse_content_line_ood|]. intros; apply adv_ok; lia.
+    - apply adv_bind; [apply safe_ood, ood_retag, parse_content_line_ood|]. intros; apply adv_ok; lia. }
+  apply adv_ok; lia.
+Qed.
+
+Lemma parse_step_adv : forall lines i line st, adv i (parse_step pp xs lines i line st).
+Proof.
+  intros. unfold parse_step.
+  match goal with |- adv _ (match ?p with inl _ => _ | inr _ => _ end) =>
+    assert (Hp : forall r, p = inr r -> i < snd r); [|destruct p as [st1|r] eqn:Ep] end.
+  { intros r. repeat match goal with |- context [if ?b then _ else _] => destruct b end;
+      intros H; inversion H; subst; simpl; lia. }
+  2:{ destruct r as [s j]. apply adv_ok. apply (Hp (s, j)); reflexivity. }
+  clear Hp Ep.
+  adv_if; [apply adv_ok; lia|].
+  match goal with |- adv _ (match ?p with inl _ => _ | inr _ => _ end) =>
+    assert (Hp : forall r, p = inr r -> i < snd r); [|destruct p as [st2|r] eqn:Ep] end.
+  { intros r. repeat match goal with
+                     | |- context [if ?b then _ else _] => destruct b
+                     | |- context [match find_char ?a ?b with _ => _ end] => destruct (find_char a b)
+                     end;
+      intros H; inversion H; subst; simpl; lia. }
+  2:{ destruct r as [s j]. apply adv_ok. apply (Hp (s, j)); reflexivity. }
+  clear Hp Ep.
+  adv_if; [apply adv_ok; lia|].
+  adv_if.
+  { destruct (strip_inline_comment _) as [hdr cm]. destruct (extract_passage_params hdr) as [nwp ps].
+    destruct (parse_tags nwp) as [name tags].
+    apply adv_bind; [apply safe_ood, validate_passage_name_ood|]. intros _ _.
+    apply adv_bind.
+    - destruct (nonempty ps); [apply safe_ood, ood_retag, parse_passage_params_ood|simpl; auto].
+    - intros; apply adv_ok; lia. }
+  destruct (st_current st2); [apply body_step_adv|apply adv_ok; lia].
+Qed.
+
+Lemma parse_loop_safe : forall fuel lines i st,
+  List.length lines < fuel + i -> safe xs (parse_loop pp xs fuel lines (List.length lines) i st).
+Proof.
+  induction fuel as [|f IH]; intros lines i st Hf.
+  - simpl. destruct (List.length lines <=? i) eqn:E; simpl; auto. apply Nat.leb_gt in E. lia.
+  - cbn [parse_loop]. destruct (List.length lines <=? i) eqn:E; simpl; auto.
+    apply Nat.leb_gt in E.
+    destruct (nth_error lines i) as [line|] eqn:En.
+    2:{ apply nth_error_None in En. lia. }
+    destruct (parse_step_adv lines i line st) as [Hs Hadv].
+    apply safe_bind; auto.
+    intros [st' i'] Hr. apply IH. apply Hadv in Hr. lia.
+Qed.
+
+(* ------------------------------------------------------------------------------------------- *)
+(* post passes                                                                                  *)
+(* ------------------------------------------------------------------------------------------- *)
+
+Lemma add_positional_ok : forall n names i acc,
+  n + i <= List.length names -> exists r, add_positional n names i acc = POk r.
+Proof.
+  induction n as [|n IH]; intros names i acc H; simpl; eauto.
+  destruct (nth_error names i) eqn:E.
+  - apply IH. lia.
+  - apply nth_error_None in E. lia.
+Qed.
+
+(* every parsed argument string is a call (`tree.body` is an ast.Call) *)
+Definition calls_are_calls : Prop := forall a, is_call a = true.
+
+Lemma validate_single_call_ood : calls_are_calls ->
+  forall ps tg a, ok_or_diag (validate_single_call pp is_call ps tg a).
+Proof.
+  intros Hc ps tg a. unfold validate_single_call.
+  destruct (String.eqb tg "@join"); auto with ood.
+  destruct (lookup tg ps) as [tp|]; auto with ood.
+  destruct (params tp) as [|p0 pr] eqn:Eps; [destruct (nonempty a); auto with ood|].
+  destruct (py_call_shape pp a) as [[npos kws]|]; auto with ood.
+  rewrite Hc. simpl negb. cbv iota.
+  destruct (List.length (p0 :: pr) <? npos) eqn:El; auto with ood.
+  destruct (existsb _ kws); auto with ood.
+  apply Nat.ltb_ge in El.
+  destruct (add_positional_ok npos (map pname (p0 :: pr)) 0 []) as [r Hr].
+  { rewrite map_length. lia. }
+  rewrite Hr. simpl pbind. repeat ood_step; auto with ood.
+Qed.
+
+Section Walk.
+Variable ps : list (string * passage).
+Hypothesis Hc : calls_are_calls.
+
+Lemma check_choices_ood : forall cs, ok_or_diag (check_choices pp is_call ps cs).
+Proof.
+  induction cs as [|c r IH]; simpl; auto with ood.
+  apply ood_bind; [apply validate_single_call_ood; auto|auto].
+Qed.
+
+Definition toks_fix := fix toks (l : list token) : pres unit :=
+  match l with
+  | [] => POk tt
+  | x :: r => let* _ := check_token pp is_call ps x in toks r
+  end.
+
+Lemma toks_fix_eq : forall l, toks_fix l = check_tokens pp is_call ps l.
+Proof. induction l as [|x r IH]; simpl; auto. destruct (check_token pp is_call ps x); simpl; auto. Qed.
+
+Lemma check_tokens_ood : forall l,
+  Forall (fun t => ok_or_diag (check_token pp is_call ps t)) l -> ok_or_diag (check_tokens pp is_call ps l).
+Proof.
+  induction 1; simpl; auto with ood. apply ood_bind; auto.
+Qed.
+
+Lemma check_token_ood : forall t, ok_or_diag (check_token pp is_call ps t).
+Proof.
+  induction t using token_ind'; try (simpl; auto with ood; fail).
+  - (* TCond *)
+    simpl. induction H as [|[c cont chs] r [Hcont Hchs] Hr IH]; auto with ood.
+    apply ood_bind; [apply check_choices_ood|]. intros _ _.
+    apply ood_bind; [|intros; apply IH].
+    change (ok_or_diag (toks_fix cont)). rewrite toks_fix_eq. apply check_tokens_ood. exact Hcont.
+  - (* TLoop *)
+    simpl. apply ood_bind; [apply check_choices_ood|]. intros _ _.
+    change (ok_or_diag (toks_fix cont)). rewrite toks_fix_eq. apply check_tokens_ood. exact H.
+  - (* TJump *)
+    simpl. apply validate_single_call_ood; auto.
+Qed.
+
+Lemma check_tokens_ood' : forall l, ok_or_diag (check_tokens pp is_call ps l).
+Proof. intros. apply check_tokens_ood. apply Forall_forall. intros. apply check_token_ood. Qed.
+
+Lemma validate_passages_ood : forall todo, ok_or_diag (validate_passages pp is_call ps todo).
+Proof.
+  induction todo as [|[k p] r IH]; simpl; auto with ood.
+  apply ood_bind; [apply check_choices_ood|]. intros _ _.
+  apply ood_bind; [apply check_tokens_ood'|auto].
+Qed.
+End Walk.
+
+Lemma check_duplicate_ood : forall locs, ok_or_diag (check_duplicate_passages locs).
+Proof. intros. unfold check_duplicate_passages. destruct (existsb _ _); auto with ood. Qed.
+
+Lemma determine_initial_ood : forall ps es, ok_or_diag (determine_initial_passage ps es).
+Proof. intros. unfold determine_initial_passage. repeat ood_step; auto with ood. Qed.
+
+(* parse: never out of fuel or internal, except for what an extractor itself returned *)
+Lemma parse_safe : calls_are_calls -> forall lines, safe xs (parse pp is_call xs lines).
+Proof.
+  intros Hc lines. unfold parse.
+  apply safe_bind; [apply parse_loop_safe; lia|]. intros st _.
+  apply safe_bind; [apply safe_ood, check_duplicate_ood|]. intros _ _.
+  apply safe_bind; [apply safe_ood, validate_passages_ood; auto|]. intros _ _.
+  apply safe_bind; [apply safe_ood, determine_initial_ood|]. intros; simpl; auto.
+Qed.
+
+(* without the hypothesis on the call oracle the only extra outcome is the AttributeError *)
+Lemma parse_loop_part_safe : forall lines,
+  safe xs (parse_loop pp xs (S (List.length lines)) lines (List.length lines) 0 init_state).
+Proof. intros. apply parse_loop_safe. lia. Qed.
+
+End MainLoop.
